@@ -299,6 +299,9 @@ class Engine:
         return named(kind, nm)
 
     def heap_get(self, st, o, attr):
+        if (o.meta.get("cls"), attr) in getattr(self.reg, "final_fields", ()):
+            # a field that is assigned only by the constructor: a function of the object, whatever else is havocked
+            return mk_V(z3.Function(f"field:{o.meta.get('cls')}.{attr}", V, V)(o.t))
         key = (self.objkey(o), attr)
         self._hk[key] = self.field_kind(o.meta.get("cls"), attr)
         if key in st.heap:
@@ -314,6 +317,8 @@ class Engine:
         return v
 
     def heap_set(self, st, o, attr, val, fr):
+        if (o.meta.get("cls"), attr) in getattr(self.reg, "final_fields", ()) and not fr.fn_key.endswith(".__init__"):
+            raise Unsupported(f"assignment to the constructor-only field {o.meta.get('cls')}.{attr}")
         kind = self.field_kind(o.meta.get("cls"), attr)
         self._hk[(self.objkey(o), attr)] = kind
         if not kind.startswith("z3:"):
